@@ -144,18 +144,37 @@ fn date_pic(kind: u8) -> Field {
     }
 }
 
-//@ unit c18_date_single prop=C18,C05,C03,C02 clock=1 chunks=range:0:6 quick=all unwind=14 mem=6 timeout=2400 stubs=chrono::Local::now=>crate::verif_support::stub_local_now,crate::util::try_format=>crate::verif_support::stub_try_format bound="Date::parse with the single-field picture given by the parameter (0 DD, 1 MM, 2 YYYY, 3 YYY, 4 YY, 5 Y, 6 DDD), every ASCII text of length <= 3 (4 for YYYY, 2 for Y), every current local date 1970..9999 (symbolic clock): missing year/month come from the clock, missing day is 1, short years are completed with the leading digits of the current year; invalid results are errors"
+//@ unit c18_date_single prop=C18,C05,C03,C02 tier=thorough clock=1 chunks=range:0:6 unwind=14 mem=6 timeout=2400 stubs=chrono::Local::now=>crate::verif_support::stub_local_now,crate::util::try_format=>crate::verif_support::stub_try_format bound="Date::parse with the single-field picture given by the parameter (0 DD, 1 MM, 2 YYYY, 3 YYY, 4 YY, 5 Y, 6 DDD), every ASCII text of length <= 3 (4 for YYYY, 2 for DD, MM and Y), every current local date 1970..9999 (symbolic clock): missing year/month come from the clock, missing day is 1, short years are completed with the leading digits of the current year; invalid results are errors"
 fn c18_date_single(kind: u8) {
     // text length: the field's digits plus one more byte (sign, blank or a left-over character)
     match kind {
         2 => date_single_body::<4>(kind),
-        5 => date_single_body::<2>(kind),
+        0 | 1 | 5 => date_single_body::<2>(kind),
         _ => date_single_body::<3>(kind),
+    }
+}
+
+//@ unit c18_ddd_pinned prop=C18,C05,C03,C02 chunks=tuples:2024,2,29;1999,12,31 quick=first:1 unwind=7/14 clock=1 mem=5 timeout=3000 stubs=chrono::Local::now=>crate::verif_support::stub_local_now,crate::util::try_format=>crate::verif_support::stub_try_format bound="Date::parse with the picture DDD, the clock pinned to the local date given by the parameters (a leap day / the last day of a common year) at 12:34:56.789012, every ASCII text of length <= 3: year and month-of-year come from the clock year, the month from the day of the year; every other clock date is c18_date_single__v6 (thorough tier)"
+fn c18_ddd_pinned(py: i32, pm: u32, pd: u32) {
+    let (cy, cm, _, _, _, _, _) = pinned_clock(py, pm, pd);
+    date_single_core::<3>(6, cy, cm)
+}
+
+//@ unit c18_date_pinned prop=C18,C05,C03,C02 qprops=C18 chunks=tuples:4,1999,12,31;3,1999,12,31;0,1999,12,31;1,1999,12,31;2,1999,12,31;5,1999,12,31;4,2024,2,29;3,2024,2,29;0,2024,2,29;1,2024,2,29;2,2024,2,29;5,2024,2,29 quick=first:2 unwind=7/14 clock=1 mem=5 timeout=2900 stubs=chrono::Local::now=>crate::verif_support::stub_local_now,crate::util::try_format=>crate::verif_support::stub_try_format bound="as c18_date_single for the pictures other than DDD, with the clock pinned to the local date given by the parameters (picture, year, month, day) at 12:34:56.789012 (1999-12-31: century and millennium prefixes differ; 2024-02-29: a leap day) and every ASCII text of the stated lengths; every other clock date is c18_date_single (thorough tier)"
+fn c18_date_pinned(kind: u8, py: i32, pm: u32, pd: u32) {
+    let (cy, cm, _, _, _, _, _) = pinned_clock(py, pm, pd);
+    match kind {
+        2 => date_single_core::<4>(kind, cy, cm),
+        0 | 1 | 5 => date_single_core::<2>(kind, cy, cm),
+        _ => date_single_core::<3>(kind, cy, cm),
     }
 }
 
 fn date_single_body<const N: usize>(kind: u8) {
     let (cy, cm, _cd, _, _, _, _) = any_clock(1970, 9999);
+    date_single_core::<N>(kind, cy, cm)
+}
+fn date_single_core<const N: usize>(kind: u8, cy: i32, cm: u32) {
     let (buf, len) = ascii_text::<N>();
     let s = &buf[..len];
     let text = unsafe { std::str::from_utf8_unchecked(s) };
@@ -216,13 +235,23 @@ fn date_single_body<const N: usize>(kind: u8) {
                         if v == 0 || v > if leap { 366 } else { 365 } {
                             None
                         } else {
-                            // month and day of the v-th day of the current year
+                            // month and day of the v-th day of the current year (loop-free:
+                            // the unwinding bound then only has to cover the text loops)
+                            let f = if leap { 29 } else { 28 };
+                            let cum = [0, 31, 31 + f, 62 + f, 92 + f, 123 + f, 153 + f, 184 + f, 215 + f, 245 + f, 276 + f, 306 + f];
                             let mut mm = 1;
-                            let mut rest = v;
-                            while mm < 12 && rest > o_dim(cy, mm) {
-                                rest -= o_dim(cy, mm);
-                                mm += 1;
-                            }
+                            if v > cum[1] { mm = 2; }
+                            if v > cum[2] { mm = 3; }
+                            if v > cum[3] { mm = 4; }
+                            if v > cum[4] { mm = 5; }
+                            if v > cum[5] { mm = 6; }
+                            if v > cum[6] { mm = 7; }
+                            if v > cum[7] { mm = 8; }
+                            if v > cum[8] { mm = 9; }
+                            if v > cum[9] { mm = 10; }
+                            if v > cum[10] { mm = 11; }
+                            if v > cum[11] { mm = 12; }
+                            let rest = v - cum[(mm - 1) as usize];
                             // the month comes from the day of the year, not from the clock
                             Some((cy, mm, rest))
                         }
@@ -261,7 +290,7 @@ fn time_pic(kind: u8) -> Field {
     }
 }
 
-//@ unit c05_time_single prop=C05,C18,C03,C02 chunks=range:0:3 quick=all unwind=8 mem=8 timeout=2400 stubs=chrono::Local::now=>crate::verif_support::stub_local_now,crate::util::try_format=>crate::verif_support::stub_try_format bound="Time::parse with the single-field picture given by the parameter (0 HH24, 1 HH12, 2 MI, 3 SS), every ASCII text of length <= 3: the value denoted, omitted (empty) field = 0 (12 o'clock = 12:00 for HH12), out-of-range values are errors; the clock is never consulted"
+//@ unit c05_time_single prop=C05,C18,C03,C02 chunks=range:0:3 quick=all unwind=8 mem=4 timeout=2400 stubs=chrono::Local::now=>crate::verif_support::stub_local_now,crate::util::try_format=>crate::verif_support::stub_try_format bound="Time::parse with the single-field picture given by the parameter (0 HH24, 1 HH12, 2 MI, 3 SS), every ASCII text of length <= 3: the value denoted, omitted (empty) field = 0 (12 o'clock = 12:00 for HH12), out-of-range values are errors; the clock is never consulted"
 fn c05_time_single(kind: u8) {
     any_clock(1970, 9999);
     let (buf, len) = ascii_text::<3>();
@@ -314,7 +343,7 @@ fn c05_time_single(kind: u8) {
 
 // ------------------------------------------------------------- C18: independence of the clock
 
-//@ unit c18_full_date_no_clock prop=C18 chunks=ints:2/ints:2,0,1 quick=all unwind=10 mem=12 timeout=3600 stubs=chrono::Local::now=>crate::verif_support::stub_local_now,crate::util::try_format=>crate::verif_support::stub_try_format bound="parameter 2 (quick): picture YYYYMM with every text 20ddmm (four symbolic digits); parameter 0 (thorough): every 6-digit text; parameter 1 (thorough): picture YYYYMMDD with every 8-digit text: the result is the date denoted (day 1 when omitted) or an error, and the (symbolic) clock is not consulted at all"
+//@ unit c18_full_date_no_clock prop=C18 chunks=ints:2/ints:2,0,1 quick=all unwind=10 mem=6 timeout=3600 stubs=chrono::Local::now=>crate::verif_support::stub_local_now,crate::util::try_format=>crate::verif_support::stub_try_format bound="parameter 2 (quick): picture YYYYMM with every text 20ddmm (four symbolic digits); parameter 0 (thorough): every 6-digit text; parameter 1 (thorough): picture YYYYMMDD with every 8-digit text: the result is the date denoted (day 1 when omitted) or an error, and the (symbolic) clock is not consulted at all"
 fn c18_full_date_no_clock(with_day: i64) {
     any_clock(1970, 9999);
     let dg: [u8; 8] = kani::any();
@@ -472,7 +501,7 @@ fn c05_ddd_yyyy() {
     std::mem::forget(fmt);
 }
 
-//@ unit c05_ampm_hh12 prop=C05,C06,C03 chunks=ints:0,1 quick=all unwind=10 mem=12 timeout=3000 stubs=chrono::Local::now=>crate::verif_support::stub_local_now,crate::util::try_format=>crate::verif_support::stub_try_format bound="12-hour time with its meridian in both field orders (parameter 0: AM HH12, 1: HH12 AM), meridian letters in any case, every two-digit hour text: 12 AM = 00h, 12 PM = 12h, h PM = h+12; hours outside 1..=12 are errors"
+//@ unit c05_ampm_hh12 prop=C05,C06,C03 chunks=ints:0,1 quick=all unwind=10 mem=6 timeout=3000 stubs=chrono::Local::now=>crate::verif_support::stub_local_now,crate::util::try_format=>crate::verif_support::stub_try_format bound="12-hour time with its meridian in both field orders (parameter 0: AM HH12, 1: HH12 AM), meridian letters in any case, every two-digit hour text: 12 AM = 00h, 12 PM = 12h, h PM = h+12; hours outside 1..=12 are errors"
 fn c05_ampm_hh12(order: i64) {
     any_clock(1970, 9999);
     let pm: bool = kani::any();
@@ -533,7 +562,7 @@ fn c06_date_ddd() {
     std::mem::forget(fmt);
 }
 
-//@ unit c06_time_one prop=C06 chunks=range:0:3 quick=all unwind=8 mem=8 timeout=1500 stubs=chrono::Local::now=>crate::verif_support::stub_local_now,crate::util::try_format=>crate::verif_support::stub_try_format,crate::time::Time::extract=>crate::format::verif_h_fmt_fields::stub_time_extract bound="every value of one time component (parameter 0: hour with HH24, 1: hour with HH12 for 01..12 o'clock in the morning, 2: minute with MI, 3: second with SS; the other components zero): format, parse the text with the same Formatter, same value, same text"
+//@ unit c06_time_one prop=C06 chunks=range:0:3 quick=all unwind=8 mem=4 timeout=1500 stubs=chrono::Local::now=>crate::verif_support::stub_local_now,crate::util::try_format=>crate::verif_support::stub_try_format,crate::time::Time::extract=>crate::format::verif_h_fmt_fields::stub_time_extract bound="every value of one time component (parameter 0: hour with HH24, 1: hour with HH12 for 01..12 o'clock in the morning, 2: minute with MI, 3: second with SS; the other components zero): format, parse the text with the same Formatter, same value, same text"
 fn c06_time_one(kind: u8) {
     any_clock(1970, 9999);
     let x: u32 = kani::any();
